@@ -254,8 +254,35 @@ def constructors_in_dim(ctx):
                                     'from_poly does not create the tree with the input dimension of poly / func_true (%s)' % (fmt(s(wc[0][0]))[:80] if len(wc) == 1 else 'no single constructor call'), b.span)
 
 
+def decision_row_guard(ctx):
+    """add_decision admits a predicate by its number of ROWS (one row per binary test, at most K of them as the assertion is written): the
+    guard compares outdim(aff) with K, not any other dimension of the function"""
+    b = ctx.body('C04.R2', 'AffTree::add_decision')
+    if b is None:
+        return
+    R = Resolver(b)
+    calls = [bb for bb, t in b.calls_to('Tree::add_child_node', 'AffTree::add_child_node')]
+    site = 'AffTree::add_decision#row-guard'
+    if not calls:
+        ctx.undecided('C04.R2', site, 'attach call not found', b.span)
+        return
+    facts = [(op, s(x), s(y)) for op, x, y in prune.cmp_facts(literals(b, R, calls[0]))]
+    AFF = ('param', 'aff')
+    rows = {('call', 'AffFuncBase::outdim', (AFF,)), ('call', 'AffFuncBase::n_constraints', (AFF,))}
+    other = {('call', 'AffFuncBase::indim', (AFF,))}
+    K_ = ('const', 'K')
+    good = any((op == 'Le' and x in rows and y == K_) or (op == 'Ge' and x == K_ and y in rows) for op, x, y in facts)
+    wrong = any((x in other and y == K_) or (y in other and x == K_) for op, x, y in facts)
+    guards = any(K_ in (x, y) for op, x, y in facts)
+    if wrong or (guards and not good):
+        ctx.bad('C04.R2', site, 'the branching-factor guard of add_decision does not compare the number of rows of the predicate with K', b.span)
+    else:
+        ctx.ok('C04.R2', site, 'decisions are admitted by rows(aff) <= K' if good else 'no branching-factor guard', b.span)
+
+
 def run(ctx):
     helpers.run_for(ctx)
+    decision_row_guard(ctx)
     helpers.share_arena_contracts(ctx, 'C04.R6', failing_paths=False)
     prune.check_wrappers(ctx, 'C04.R1', WRAPPERS)
     constructors_in_dim(ctx)
